@@ -151,27 +151,28 @@ theorem later_packets_processed (beh : Beh) (hq : AllPacketCallbacksQuiet beh) (
 
 /-! ## 4. Removing a registration stops deliveries for that registration only -/
 
-/-- `remove_header_callback` removes every copy of exactly that registration and keeps all others, in order. -/
+/-- `remove_header_callback` never raises, removes every copy of exactly that registration and keeps all
+others, in order. -/
 theorem remove_only_that_registration (l : List Reg) (r : Reg) :
-    Variant.code.remove l r = l.filter (· ≠ r) ∧
-    r ∉ Variant.code.remove l r ∧
-    (∀ x, x ≠ r → (Variant.code.remove l r).count x = l.count x) ∧
-    List.Sublist (Variant.code.remove l r) l := by
-  have h : Variant.code.remove l r = l.filter (· ≠ r) := by
-    simp only [Variant.remove, Variant.code, gen_remove_snapshot, if_true]
+    ∃ l', Variant.code.remove l r = some l' ∧ l' = l.filter (· ≠ r) ∧
+      r ∉ l' ∧ (∀ x, x ≠ r → l'.count x = l.count x) ∧ List.Sublist l' l := by
+  refine ⟨l.filter (· ≠ r), ?_, rfl, ?_, ?_, ?_⟩
+  · simp only [Variant.remove, Variant.code, gen_remove_snapshot, if_true]
     exact removeHeaderCallback_eq_filter l r
-  refine ⟨h, ?_, ?_, ?_⟩
-  · rw [h]; simp
-  · intro x hx; rw [h]; exact List.count_filter (by simpa using hx)
-  · rw [h]; exact List.filter_sublist
+  · simp
+  · intro x hx; exact List.count_filter (by simpa using hx)
+  · exact List.filter_sublist
 
 /-- The deliveries of a later packet are what they would have been, minus the removed registration. -/
-theorem dispatch_after_remove (beh : Beh) (hdr : Nat) (hh : hdr < 256) (st : St) (r : Reg) :
-    callsOf (newEvents { st with regs := Variant.code.remove st.regs r }
-        (dispatch Variant.code beh hdr { st with regs := Variant.code.remove st.regs r }))
+theorem dispatch_after_remove (beh : Beh) (hdr : Nat) (hh : hdr < 256) (st : St) (r : Reg) (l' : List Reg)
+    (hrm : Variant.code.remove st.regs r = some l') :
+    callsOf (newEvents { st with regs := l' } (dispatch Variant.code beh hdr { st with regs := l' }))
       = (st.regs.filter (specMatches · hdr)).filter (· ≠ r) := by
+  obtain ⟨l'', h1, h2, _⟩ := remove_only_that_registration st.regs r
+  rw [hrm] at h1
+  cases h1
   rw [dispatch_calls beh hdr hh]
-  simp only [(remove_only_that_registration st.regs r).1, List.filter_filter]
+  simp only [h2, List.filter_filter]
   congr 1; funext x; exact Bool.and_comm _ _
 
 /-! ## 5. Packet sequences: arrival order -/
@@ -236,8 +237,8 @@ theorem live_dispatch_counterexample :
 
 /-- the old remove-while-iterating loop skipped the entry following a removed one -/
 theorem live_remove_counterexample :
-    removeHeaderCallbackLive [regA, regA, regB] regA = [regA, regB] ∧
-    removeHeaderCallback [regA, regA, regB] regA = [regB] := by decide
+    removeHeaderCallbackLive [regA, regA, regB] regA = some [regA, regB] ∧
+    removeHeaderCallback [regA, regA, regB] regA = some [regB] := by decide
 
 /-! ## Non-vacuity: concrete instances of the hypotheses -/
 
